@@ -418,6 +418,29 @@ func c12Run(e *core.Env) {
 			}
 		}
 	}
+	// tiny exponent ranges (Emax = 1..3) with operands of large magnitude: log10(x) fits the range while
+	// ln(x) = 2.30 log10(x) does not (and the other way round for the underflow side)
+	{
+		var big []Operand
+		for _, k := range []int32{44, 50, 100, 440, 5000, -44, -50, -440, -5000} {
+			big = append(big, Fin(1, k, false), Fin(3, k, false), Fin(97, k, false))
+		}
+		for i, x := range big {
+			idx++
+			if !e.Mine(idx) {
+				continue
+			}
+			e.State()
+			_ = i
+			for _, pe := range [][2]int32{{1, 1}, {2, 2}, {3, 3}, {3, 1}, {1, 3}} {
+				for _, m := range []apd.Rounder{apd.RoundHalfEven, apd.RoundFloor} {
+					for _, op := range []string{"Ln", "Log10"} {
+						run(op, x, nil, MkCtx(uint32(pe[0]), -pe[1], pe[1], m, 0))
+					}
+				}
+			}
+		}
+	}
 	// 200-operand core at high precisions
 	for i := 0; i < len(un); i += len(un)/200 + 1 {
 		idx++
@@ -544,9 +567,9 @@ func init() {
 		Rule:  "every (function, operands, precision, exponent range, mode) point of the product is executed and compared with a high-precision real reference (big.Float, own ln 2 / ln 10 by atanh series, explicit relative error bound; precision doubled until the one-ulp question is decided, otherwise counted as undecided and never reported); exact-by-definition cases exactly; overflow/underflow reports only if the exact value lies outside the range; non-trivial = operand inside the function's domain",
 		Bounds: func(tier string) string {
 			if tier == "thorough" {
-				return "Exp/Ln/Log10 on DENSE(3,4) + SHAPE(12) x p = 1..9 (each operand under a rotating (exponent range, mode) pair out of 8 ranges incl. [0,9], [-1,5], [-3,9], [-1000,50], [-128,96] x 6 modes, every pair reached), Ln/Log10 arguments 10^k(1+-10^-j) j<=14 |k|<=6, tight ranges [0,9] and [-1,5] at p in {1,2} x {half_even, floor} on every c*10^e, c<1000, e in {-2,0}; Exp arguments {10^-j, 22.9p, 23p, 23p+1, +-130..2000, 22999..23001, 230258, 230259} at p in 1..9,16,34,60; constant tables: p = 2^i, 2^i+-1 up to 2200 through Ln and Log10; Pow on selected DENSE(3,3) x {integers -12..12, 20 fractions} x p in {1,2,3,5,9}"
+				return "Exp/Ln/Log10 on DENSE(3,4) + SHAPE(12) x p = 1..9 (each operand under a rotating (exponent range, mode) pair out of 8 ranges incl. [0,9], [-1,5], [-3,9], [-1000,50], [-128,96] x 6 modes, every pair reached), Ln/Log10 arguments 10^k(1+-10^-j) j<=14 |k|<=6, tight ranges [0,9] and [-1,5] at p in {1,2} x {half_even, floor} on every c*10^e, c<1000, e in {-2,0}; Ln/Log10 of {1,3,97}E+-{44,50,100,440,5000} under ranges [-E,E], E in 1..3; Exp arguments {10^-j, 22.9p, 23p, 23p+1, +-130..2000, 22999..23001, 230258, 230259} at p in 1..9,16,34,60; constant tables: p = 2^i, 2^i+-1 up to 2200 through Ln and Log10; Pow on selected DENSE(3,3) x {integers -12..12, 20 fractions} x p in {1,2,3,5,9}"
 			}
-			return "Exp/Ln/Log10 on selected DENSE(3,4) + SHAPE(8) x p = 1..9 (each operand under a rotating (exponent range, mode) pair out of 6 ranges incl. [0,9], [-3,9], [-1000,50], [-128,96] x 6 modes, every pair reached), Ln/Log10 arguments 10^k(1+-10^-j) j<=8 |k|<=3, Exp argument family (10^-j, 22.9p, 23p, 23p+1, +-130..2000, 22999..10^6) at p in 1..9,16,34; tight ranges [0,9] and [-1,5] at p in {1,2} x {half_even, floor} on every c*10^e, c<1000, e in {-2,0}; constant tables up to p = 257; Pow on ~60 bases x 45 exponents x alternating p in {1,2,3,5,9}"
+			return "Exp/Ln/Log10 on selected DENSE(3,4) + SHAPE(8) x p = 1..9 (each operand under a rotating (exponent range, mode) pair out of 6 ranges incl. [0,9], [-3,9], [-1000,50], [-128,96] x 6 modes, every pair reached), Ln/Log10 arguments 10^k(1+-10^-j) j<=8 |k|<=3, Exp argument family (10^-j, 22.9p, 23p, 23p+1, +-130..2000, 22999..10^6) at p in 1..9,16,34; tight ranges [0,9] and [-1,5] at p in {1,2} x {half_even, floor} on every c*10^e, c<1000, e in {-2,0}; Ln/Log10 of {1,3,97}E+-{44,50,100,440,5000} under ranges [-E,E], E in 1..3; constant tables up to p = 257; Pow on ~60 bases x 45 exponents x alternating p in {1,2,3,5,9}"
 		},
 		Run:    c12Run,
 		Replay: c12Replay,
